@@ -872,7 +872,7 @@ impl CxxCodeBodyTranslator {
         match rv {
             Rvalue::Copy(a) => self.format_operand(a),
             Rvalue::UnaryOp(op @ UnaryOp::Bitwise(_), a) => {
-                let expr = format!("{}{}", op, self.format_operand(a));
+                let expr = format!("{}{}", op, self.format_bitwise_operand(a));
                 match enum_operand_type(a) {
                     // ~enum is int (or QFlags), which isn't converted back to enum implicitly
                     Some(ty) => format!(
@@ -885,7 +885,12 @@ impl CxxCodeBodyTranslator {
             }
             Rvalue::UnaryOp(op, a) => format!("{}{}", op, self.format_operand(a)),
             Rvalue::BinaryOp(op @ BinaryOp::Bitwise(_), l, r) => {
-                let expr = format!("{} {} {}", self.format_operand(l), op, self.format_operand(r));
+                let expr = format!(
+                    "{} {} {}",
+                    self.format_bitwise_operand(l),
+                    op,
+                    self.format_bitwise_operand(r)
+                );
                 match enum_operand_type(l).or_else(|| enum_operand_type(r)) {
                     // enum & enum is int (or QFlags), which isn't converted back to enum implicitly
                     Some(ty) => format!(
@@ -1000,6 +1005,18 @@ impl CxxCodeBodyTranslator {
                     xs.iter().map(|a| self.format_operand(a)).join(", ")
                 )
             }
+        }
+    }
+
+    /// Formats operand of bitwise operator. A value of scoped enum (`enum class`) type has no
+    /// bitwise operators nor implicit conversion to integer in C++.
+    fn format_bitwise_operand(&self, a: &tir::Operand) -> String {
+        use crate::typemap::NamedType;
+        match enum_operand_type(a) {
+            Some(TypeKind::Just(NamedType::Enum(en))) if en.is_scoped() => {
+                format!("static_cast<int>({})", self.format_operand(a))
+            }
+            _ => self.format_operand(a),
         }
     }
 
